@@ -27,6 +27,14 @@
 (*                                same context and the same writer         *)
 (*   <<"catchnext">>              handlers.PanicsHandler(): c.Next() under *)
 (*                                a deferred recover that sets status 500  *)
+(*   <<"nextdefer", code>>        c.Next() with a deferred                 *)
+(*                                c.Resp.WriteHeader(code) that also runs  *)
+(*                                while a panic unwinds (handlers.Timeout  *)
+(*                                after its deadline)                      *)
+(*   <<"lib", name>>              a middleware of pkg/handlers called in   *)
+(*                                place; LibOps gives its meaning in the   *)
+(*                                ops above (ExpandChain), the harness     *)
+(*                                calls the real function                  *)
 (*                                                                         *)
 (* IDEAL machine (declarative, a recursive function): what the statements  *)
 (* promise - onion order, each handler at most once, nothing new after an  *)
@@ -89,6 +97,20 @@ SumAcc(u, i) == IF i > Len(u) THEN 0 ELSE (IF u[i][1] = "W" THEN u[i][3] ELSE 0)
 OneCommit(w, wops) == w.committed /\ w.under = ExpUnder(wops) /\ w.length = SumAcc(w.under, 1)
 
 -----------------------------------------------------------------------------
+(* pkg/handlers/middlewares.go in terms of the primitive ops *)
+LibNames == {"favicon-hit", "favicon-miss", "basicauth-none", "basicauth-bad", "basicauth-ok", "timeout-fired", "timeout-idle"}
+LibOps(name) ==
+  CASE name = "favicon-hit"    -> << <<"abort">>, <<"status", 204>> >>         \* IgnoreFavIcon: c.AbortThen().NoContent()
+    [] name = "favicon-miss"   -> <<>>
+    [] name = "basicauth-none" -> << <<"httpError", 401, 13>>, <<"abort">> >>  \* AbortWithStatus(401, "Unauthorized")
+    [] name = "basicauth-bad"  -> << <<"abortStatus", 403>> >>                 \* AbortWithStatus(403); the handler then goes on to c.Set
+    [] name = "basicauth-ok"   -> <<>>
+    [] name = "timeout-fired"  -> << <<"nextdefer", 504>> >>                   \* Timeout(d): c.Next(); deferred: deadline exceeded -> WriteHeader(504)
+    [] name = "timeout-idle"   -> << <<"next">> >>
+ExpandScript(s) == FlattenSeq([i \in 1..Len(s) |-> IF s[i][1] = "lib" THEN LibOps(s[i][2]) ELSE <<s[i]>>])
+ExpandChain(c)  == [i \in 1..Len(c) |-> ExpandScript(c[i])]
+
+-----------------------------------------------------------------------------
 (* IDEAL machine: st = [started, ab, pan, log, w, wops, errs] *)
 St0 == [started |-> 0, ab |-> FALSE, pan |-> FALSE, log |-> <<>>, w |-> W0, wops |-> <<>>, errs |-> 0]
 
@@ -111,6 +133,10 @@ IRunHandler(chain, st, h, pc) ==
                                         \* after the panicking one are still started by the enclosing loop
               LET r == IRunNext(chain, st) IN
               IRunHandler(chain, IF r.pan THEN [r EXCEPT !.pan = FALSE, !.w = WHeader(@, 500), !.wops = Append(@, <<"status", 500>>)] ELSE r, h, pc + 1)
+         [] op[1] = "nextdefer" ->      \* the deferred WriteHeader runs whether or not the handlers below panicked
+              LET r  == IRunNext(chain, st)
+                  r2 == [r EXCEPT !.w = WHeader(@, op[2]), !.wops = Append(@, <<"status", op[2]>>)] IN
+              IF r.pan THEN r2 ELSE IRunHandler(chain, r2, h, pc + 1)
          [] op[1] = "abort" -> IRunHandler(chain, [st EXCEPT !.ab = TRUE], h, pc + 1)
          [] op[1] = "abortStatus" -> IRunHandler(chain, [st EXCEPT !.ab = TRUE, !.w = ApplyW(@, op), !.wops = Append(@, op)], h, pc + 1)
          [] op[1] = "err"   -> IRunHandler(chain, [st EXCEPT !.errs = @ + 1], h, pc + 1)
